@@ -9,6 +9,7 @@ int main(int argc, char** argv) {
     if (layer == "dec") return vh::run_dec(argc - 2, argv + 2);
     if (layer == "exp") return vh::run_exp(argc - 2, argv + 2);
     if (layer == "rd") return vh::run_rd(argc - 2, argv + 2);
+    if (layer == "tbl") return vh::run_tbl(argc - 2, argv + 2);
     std::fprintf(stderr, "unknown layer %s\n", layer.c_str());
     return 2;
 }
